@@ -1,4 +1,4 @@
-import TLVerif.Codec.TL1Canon
+import TLVerif.Codec.TL1RoundTrip
 namespace TLVerif.Codec
 open TLVerif.Prim
 
@@ -499,6 +499,172 @@ theorem readFields_nofuel {rd : Rd} (hs : Shrinks rd) (params : List Nat) (L : N
           simp only [hp, hna] at h
           exact ih' _ _ hl h
 
+/-! ### types that surely consume input -/
+
+def Consumes (d : Desc) (rd : Rd) : Prop :=
+  ∀ ty bare na bs v rest, d.consumes ty bare = true → rd ty bare na bs = .ok (v, rest) → rest.length + 1 ≤ bs.length
+
+theorem readStep_consumes (cfg : Cfg) (d : Desc) {rd : Rd} (h : Shrinks rd) : Consumes d (readStep cfg d rd) := by
+  intro ty bare params bs v rest hc hr
+  have hle := readStep_shrinks cfg d h _ _ _ _ _ _ hr
+  simp only [Desc.consumes] at hc
+  simp only [readStep] at hr
+  cases hg : d.get? ty with
+  | none => simp [hg] at hc
+  | some inst =>
+    simp only [hg] at hr hc
+    cases inst with
+    | prim k =>
+      have hk : k ≠ .bit := by intro e; subst e; simp at hc
+      obtain ⟨pre, e, hw⟩ := readPrim_canonical hk hr
+      have := writePrim_min hw
+      have : 1 ≤ minSizePrim k := by cases k <;> simp [minSizePrim] at hk ⊢
+      rw [e]; simp only [List.length_append]; omega
+    | struct s =>
+      simp only at hr
+      cases bare with
+      | true => simp at hc
+      | false =>
+        simp only [Bool.false_eq_true, if_false] at hr
+        cases ht : readExactTag s.tag bs with
+        | error e => simp [ht] at hr
+        | ok bs1 =>
+          simp only [ht] at hr
+          have := readExactTag_len ht
+          cases hf : readFieldsWith rd params s.fields [] bs1 with
+          | error e => simp [hf] at hr
+          | ok p =>
+            obtain ⟨fs, r⟩ := p
+            simp only [hf] at hr
+            injection hr with hr; injection hr with _ hr; subst hr
+            have := readFields_shrinks h params _ _ _ _ _ hf
+            omega
+    | union u =>
+      simp only at hr
+      cases h1 : readU32 bs with
+      | error e => simp [h1] at hr
+      | ok p =>
+        obtain ⟨tag, bs1⟩ := p
+        simp only [h1] at hr
+        have := readU32_len h1
+        cases hf : findVariant d tag u.variants 0 with
+        | none => simp [hf] at hr
+        | some q =>
+          obtain ⟨i, vi⟩ := q
+          cases hna : natArgVals [] params u.elemNatArgs with
+          | none => simp [hf, hna] at hr
+          | some na =>
+            simp only [hf, hna] at hr
+            cases h2 : rd vi true na bs1 with
+            | error e => simp [h2] at hr
+            | ok p =>
+              obtain ⟨x, r⟩ := p
+              simp only [h2] at hr
+              injection hr with hr; injection hr with _ hr; subst hr
+              have := h _ _ _ _ _ _ h2
+              omega
+    | array a =>
+      simp only at hr
+      simp only [Bool.not_eq_true'] at hc
+      cases hna : natArgVals [] params a.elem.natArgs with
+      | none => simp [hna] at hr
+      | some na =>
+        simp only [hna, hc, Bool.false_eq_true, if_false] at hr
+        cases h1 : readU32 bs with
+        | error e => simp [h1] at hr
+        | ok p =>
+          obtain ⟨n, bs1⟩ := p
+          simp only [h1] at hr
+          have := readU32_len h1
+          split at hr
+          · cases hr
+          · obtain ⟨⟨vs, r⟩, he, hv⟩ := map_ok_inv hr
+            injection hv with _ hv; subst hv
+            have := readElems_shrinks h _ _ _ _ _ _ he
+            show r.length + 1 ≤ bs.length
+            omega
+    | dict a =>
+      simp only at hr
+      cases hna : natArgVals [] params a.elem.natArgs with
+      | none => simp [hna] at hr
+      | some na =>
+        simp only [hna] at hr
+        cases h1 : readU32 bs with
+        | error e => simp [h1] at hr
+        | ok p =>
+          obtain ⟨n, bs1⟩ := p
+          simp only [h1] at hr
+          have := readU32_len h1
+          split at hr
+          · cases hr
+          · cases hk : dictKeyPrim d a with
+            | none => simp [hk] at hr
+            | some k =>
+              simp only [hk] at hr
+              obtain ⟨⟨vs, r⟩, he, hv⟩ := map_ok_inv hr
+              injection hv with _ hv; subst hv
+              have := readElems_shrinks h _ _ _ _ _ _ he
+              show r.length + 1 ≤ bs.length
+              omega
+
+theorem readTL1_consumes (cfg : Cfg) (d : Desc) : ∀ fuel, Consumes d (readTL1 cfg d fuel) := by
+  intro fuel
+  cases fuel with
+  | zero => intro ty bare na bs v rest _ h; simp [readTL1] at h
+  | succ n => rw [readTL1_succ]; exact readStep_consumes cfg d (readTL1_shrinks cfg d n)
+
+theorem readFields_nofuel_g {d : Desc} {rk : List Nat} {r : Nat} {rd : Rd} (hs : Shrinks rd) (hc : Consumes d rd)
+    (params : List Nat) (L : Nat)
+    (HU : ∀ ty bare na bs', rkOf d rk ty bare < r → bs'.length ≤ L → rd ty bare na bs' ≠ .error .fuel)
+    (HG : ∀ ty bare na bs', bs'.length + 1 ≤ L → rd ty bare na bs' ≠ .error .fuel) :
+    ∀ (fields : List Field) (g : Bool) (acc : List (Option Val)) (bs : Bytes),
+      fieldsProductive d rk r g fields = true → bs.length ≤ L → (g = true → bs.length + 1 ≤ L) →
+      readFieldsWith rd params fields acc bs ≠ .error .fuel := by
+  intro fields
+  induction fields with
+  | nil => intro g acc bs _ _ _ h; simp [readFieldsWith] at h
+  | cons f fs ih =>
+    intro g acc bs hprod hl hg h
+    simp only [fieldsProductive, Bool.and_eq_true, Bool.or_eq_true, decide_eq_true_eq] at hprod
+    simp only [readFieldsWith] at h
+    cases hp : fieldPresent f acc params with
+    | none => simp [hp] at h
+    | some b =>
+      cases hna : natArgVals acc params f.natArgs with
+      | none => cases b <;> simp [hp, hna] at h
+      | some na =>
+        cases b with
+        | true =>
+          simp only [hp, hna] at h
+          cases h1 : rd f.ty f.bare na bs with
+          | error e =>
+            simp only [h1] at h
+            injection h with h; subst h
+            rcases hprod.1 with hg' | hr
+            · exact HG _ _ _ _ (hg hg') h1
+            · exact HU _ _ _ _ hr hl h1
+          | ok p =>
+            obtain ⟨v, bs'⟩ := p
+            simp only [h1] at h
+            have hsh := hs _ _ _ _ _ _ h1
+            refine ih _ _ _ hprod.2 (by omega) ?_ h
+            intro hg'
+            simp only [Bool.or_eq_true, Bool.and_eq_true] at hg'
+            rcases hg' with hg' | ⟨_, hcons⟩
+            · have := hg hg'; omega
+            · have := hc _ _ _ _ _ _ hcons h1; omega
+        | false =>
+          simp only [hp, hna] at h
+          have hmask : f.mask.isNone = false := by
+            unfold fieldPresent at hp
+            cases hm' : f.mask with
+            | none => rw [hm'] at hp; cases hp
+            | some _ => rfl
+          refine ih _ _ _ hprod.2 hl ?_ h
+          intro hg'
+          simp only [hmask, Bool.false_and, Bool.or_false] at hg'
+          exact hg hg'
+
 theorem readElems_nofuel {rd : Rd} (hs : Shrinks rd) (f : Field) (na : List Nat) (L : Nat)
     (hf : ∀ bs', bs'.length ≤ L → rd f.ty f.bare na bs' ≠ .error .fuel) :
     ∀ (n : Nat) (bs : Bytes), bs.length ≤ L → readElemsWith rd f na n bs ≠ .error .fuel := by
@@ -588,14 +754,16 @@ theorem fuel_suffices_aux (cfg : Cfg) (d : Desc) (rk : List Nat) (hp : d.product
       | prim k => exact readPrim_ne_fuel k bs h
       | struct s =>
         simp only at h
-        simp only [Inst.productive, List.all_eq_true, decide_eq_true_eq] at hprod
+        simp only [Inst.productive] at hprod
         cases bare with
         | true =>
           simp only [if_true] at h
           have hr : rkOf d rk ty true = rkAt rk ty := by simp [rkOf]
           rw [hr] at hfu
-          have := readFields_nofuel hsh params bs.length s.fields
-            (fun f hf na bs' hl => ih _ _ _ _ (need_unguarded hl (hprod f hf) hfu)) [] bs (Nat.le_refl _)
+          have := readFields_nofuel_g hsh (readTL1_consumes cfg d fuel) params bs.length
+            (fun ty' bare' na bs' hrk hl => ih _ _ _ _ (need_unguarded hl hrk hfu))
+            (fun ty' bare' na bs' hl => ih _ _ _ _ (need_guarded (L := bs.length) hl (hK _ _) hfu))
+            s.fields false [] bs hprod (Nat.le_refl _) (fun hc => by cases hc)
           cases hfr : readFieldsWith (readTL1 cfg d fuel) params s.fields [] bs with
           | error e => rw [hfr] at h this; simp only at h; injection h with h; subst h; exact this rfl
           | ok p => rw [hfr] at h; cases h
